@@ -21,6 +21,10 @@ pub struct Printer<'a> {
     /// > 0 while printing the initializer of a let whose annotation was dropped: generator mask
     /// for known finding KF-C05-1 (literals there keep their suffix)
     force_suffix: u32,
+    /// set just before printing an expression whose type the checker knows from the context (the
+    /// initializer of an annotated let, the value of an assignment, a call argument): a range may
+    /// then be printed without any suffix
+    typed_ctx: bool,
 }
 
 fn is_atom(e: &Expr) -> bool {
@@ -49,7 +53,7 @@ fn is_postfix_base(e: &Expr) -> bool {
 
 impl<'a> Printer<'a> {
     pub fn new(defs: &'a Defs, fns: &'a [FnDef], style: u64) -> Self {
-        Printer { toks: vec![], defs, fns, style, head_depth: 0, drop_suffix_pct: 0, drop_annot_pct: 0, force_suffix: 0 }
+        Printer { toks: vec![], defs, fns, style, head_depth: 0, drop_suffix_pct: 0, drop_annot_pct: 0, force_suffix: 0, typed_ctx: false }
     }
 
     fn emit(&mut self, t: &str) -> u32 {
@@ -193,6 +197,7 @@ impl<'a> Printer<'a> {
     }
 
     pub fn expr(&mut self, e: &Expr) -> Span {
+        let typed_ctx = std::mem::take(&mut self.typed_ctx);
         let span = match &e.kind {
             ExprKind::Lit(v) => self.lit(v, &e.ty),
             ExprKind::Var(n) => {
@@ -274,6 +279,7 @@ impl<'a> Printer<'a> {
                     if k > 0 {
                         self.emit(",");
                     }
+                    self.typed_ctx = true;
                     self.expr(a);
                 }
                 let i1 = self.emit(")");
@@ -302,9 +308,11 @@ impl<'a> Printer<'a> {
             ExprKind::Range(lo, hi) => {
                 let Ty::Array(et, _) = &e.ty else { panic!("harness: range type") };
                 let t = et.int();
-                let i0 = self.emit(&t.lit(*lo as i128));
+                // one suffix is enough for the parser, the context gives the type if there is none
+                let style = if self.force_suffix > 0 { 0 } else { self.choice(if typed_ctx { 4 } else { 3 }) };
+                let i0 = self.emit(&if style == 2 || style == 3 { lo.to_string() } else { t.lit(*lo as i128) });
                 self.emit("..");
-                let i1 = self.emit(&t.lit(*hi as i128));
+                let i1 = self.emit(&if style == 1 || style == 3 { hi.to_string() } else { t.lit(*hi as i128) });
                 (i0, i1)
             }
             ExprKind::TupleLit(es) => {
@@ -526,6 +534,7 @@ impl<'a> Printer<'a> {
                 if !has_annotation {
                     self.force_suffix += 1;
                 }
+                self.typed_ctx = has_annotation;
                 let se = self.expr(e);
                 if !has_annotation {
                     self.force_suffix -= 1;
@@ -547,6 +556,7 @@ impl<'a> Printer<'a> {
                 if !has_annotation {
                     self.force_suffix += 1;
                 }
+                self.typed_ctx = has_annotation;
                 let se = self.expr(e);
                 if !has_annotation {
                     self.force_suffix -= 1;
@@ -590,6 +600,7 @@ impl<'a> Printer<'a> {
                     Some(o) => panic!("harness: no compound assignment for {o:?}"),
                 };
                 self.emit(&optok);
+                self.typed_ctx = op.is_none();
                 let sv = self.expr(value);
                 self.emit(";");
                 (start, sv.1)
